@@ -71,8 +71,6 @@ NEV = 5
 FINDINGS = {
     "C06-ctc-undeclared-crosstalk":
         "fl*_max_ctc with fewer than three channels/six elements",
-    "C06-mlclass-score-data": "ml_class after an ml_score_* feature changed",
-    "C06-bright-bgoff": "bright_bc_*/bright_perc_* after bg_off changed",
     "C06-emodulus-available-unreadable":
         "emodulus listed as available but reading raises ValueError",
     "C06-emodulus-stale-viscosity":
@@ -239,19 +237,36 @@ def innate_data(name, n=NEV):
 
 
 def temp_data(name, v, n=NEV):
-    """version v of a temporary feature"""
+    """version v of a temporary feature. Versions 3k+1, 3k+2, 3k+3 agree
+    in every element but the last (3k+3 additionally has NaN in the last but
+    one), so consecutive replacements usually differ in one trailing
+    element only -- a cache key built from a prefix or a summary of the data
+    would not see them."""
     import numpy as np
+    blk, kind = ((v - 1) // 3) * 3 if v >= 1 else -3, (v - 1) % 3
     if name.startswith("ml_score_"):
-        # rotating pattern so that the arg-max class changes with v
+        # rotating pattern so that the arg-max class changes with the block
         s = sum(name.encode()) % 5
-        return np.array([((i * 3 + v * 2 + s) % 8) / 8.0 for i in range(n)])
-    if name == "bg_off":
-        return np.arange(n) * 0.5 + v
-    if name == "temp":
-        return 22.5 + np.arange(n) / 16.0 + (v % 16) / 8.0
-    if name in ("fl1_max", "fl2_max", "fl3_max"):
-        return 100.0 + 37.0 * v + np.arange(n) * (11.0 + v)
-    return innate_data(name, n) + v
+        arr = np.array([((i * 3 + blk * 2 + s) % 8) / 8.0 for i in range(n)])
+        arr[-1] = (arr[-1] + kind * 3 / 8.0) % 1.0
+        step = 0.0
+    elif name == "bg_off":
+        arr = np.arange(n) * 0.5 + blk
+        step = 0.25
+    elif name == "temp":
+        arr = 22.5 + np.arange(n) / 16.0 + (blk % 16) / 8.0
+        step = 1 / 64.0
+    elif name in ("fl1_max", "fl2_max", "fl3_max"):
+        arr = 100.0 + 37.0 * blk + np.arange(n) * (11.0 + blk)
+        step = 3.0
+    else:
+        arr = innate_data(name, n) + blk
+        step = 1 / 16.0
+    arr = np.array(arr, dtype=np.float64)
+    arr[-1] += kind * step
+    if kind == 2:
+        arr[-2] = np.nan
+    return arr
 
 
 # --------------------------------------------------------------------------
@@ -364,7 +379,11 @@ def emod_sweep_cases():
                                 [0, ek["viscosity"], 5],
                                 [0, ek["viscosity model"],
                                  2 if vm == 1 else 1],
-                                [0, ek["lut"], 1]]
+                                [0, ek["lut"], 1],
+                                [0, kid("imaging", "pixel size"), 2],
+                                [0, kid("setup", "flow rate"), 2],
+                                [0, kid("setup", "channel width"), 2],
+                                [0, kid("setup", "chip region"), 1]]
                         for k, v in ((ek["medium"], med),
                                      (ek["temperature"], tmp),
                                      (ek["viscosity"], visc),
@@ -381,9 +400,36 @@ def emod_sweep_cases():
     return cases
 
 
+def ctc_sweep_cases():
+    """Exhaustive small scope for the crosstalk recipes: every channel
+    subset of size >= 2 x {only the pair's two elements, all six} x every
+    single change (an element set to a new value or deleted, a channel
+    replaced, the missing channel appearing), as [read; change; read] for
+    every corrected feature of the subset."""
+    ck = {(i, j): kid("calculation", "crosstalk fl%d%d" % (i, j))
+          for i in (1, 2, 3) for j in (1, 2, 3) if i != j}
+    cases = []
+    for chans in ((1, 2), (1, 3), (2, 3), (1, 2, 3)):
+        pairkeys = [ck[(i, j)] for i in chans for j in chans if i != j]
+        for keys in (pairkeys, sorted(ck.values())):
+            cfg0 = sorted([k, 1 + n] for n, k in enumerate(keys))
+            muts = [[0, k, 9] for k in sorted(ck.values())]
+            muts += [[1, k, 0] for k in keys]
+            muts += [[2, F_ID["fl%d_max" % c], 1] for c in (1, 2, 3)]
+            for c in chans:
+                fe = F_ID["fl%d_max_ctc" % c]
+                for m in muts:
+                    cases.append(dict(
+                        family="ctc-sweep", fmt="dict",
+                        events=["fl%d_max" % c for c in chans] + ["deform"],
+                        temps0=[], cfg0=cfg0,
+                        ops=[[3, fe, 0], m, [3, fe, 0]]))
+    return cases
+
+
 def gen_case(rng, thorough=False):
     fam = rng.choice(FAMILIES)
-    fmt = rng.choice(["dict", "dict", "dict", "hdf5", "child"])
+    fmt = rng.choice(["dict", "dict", "dict", "hdf5", "child", "child2"])
     ev, temps, keys, reads = family_setup(rng, fam)
     counter = {"zero": fam in ("emod", "mixed") and rng.random() < 0.45}
     tcounter = {}
@@ -537,10 +583,15 @@ class Impl:
         for f, v in temps.items():
             dclab.set_temporary_feature(root, ID_F[f], temp_data(ID_F[f], v))
         view = root
-        if self.fmt == "child":
+        if self.fmt in ("child", "child2"):
             root.filter.manual[1] = False
             root.apply_filter()
             view = dclab.new_dataset(root)
+        if self.fmt == "child2":
+            # a grand-child: the child hides one more event
+            view.filter.manual[0] = False
+            view.apply_filter()
+            view = dclab.new_dataset(view)
         return root, view
 
 
@@ -567,14 +618,21 @@ def same_value(a, b):
 
 
 def err_code(e):
+    """The property distinguishes a value from an error; of the error
+    classes only the two documented ones are told apart (KeyError: feature
+    does not exist; MissingCrosstalkMatrixElementsError), everything else
+    is "raises" (3)."""
     name = type(e).__name__
     if isinstance(e, KeyError):
         return 2
-    if isinstance(e, ValueError):
-        return 3
     if name == "MissingCrosstalkMatrixElementsError":
         return 4
-    return 5
+    return 3
+
+
+def norm_code(x):
+    """model error kinds e_value (3) / e_other (5) are one class"""
+    return 3 if x == 5 else x
 
 
 def try_read(ds, name):
@@ -632,7 +690,11 @@ def run_impl(case, scratch):
         root, view = im.build(cfg, temps)
         computed = 0
         changed_after_compute = False
+        okreads = {}        # name -> snapshots of the successful reads
+        refreshed_by_dclab = False
         for i, (tag, a, b) in enumerate(case["ops"]):
+            if tag in (0, 1):
+                refreshed_by_dclab = False
             if tag == 0:
                 sec, key = ID_K[a]
                 root.config[sec][key] = cfg_value(a, b)
@@ -644,18 +706,38 @@ def run_impl(case, scratch):
                 cfg.pop(a, None)
                 changed_after_compute |= computed > 0
             elif tag == 2:
-                dclab.set_temporary_feature(root, ID_F[a],
-                                            temp_data(ID_F[a], b))
+                data = temp_data(ID_F[a], b)
+                if im.fmt in ("child", "child2") and b % 2 == 0:
+                    # through the hierarchy child: dclab maps the events to
+                    # the root (NaN for the hidden ones) and refreshes the
+                    # tree itself
+                    # (no refresh by the harness here: whatever the child
+                    # cached from earlier reads must be renewed by dclab)
+                    ids = [0, 2, 3, 4] if im.fmt == "child" else [2, 3, 4]
+                    dclab.set_temporary_feature(view, ID_F[a], data[ids])
+                    refreshed_by_dclab = True
+                else:
+                    dclab.set_temporary_feature(root, ID_F[a], data)
+                    refreshed_by_dclab = False
                 temps[a] = b
                 changed_after_compute |= computed > 0
             else:
                 ctx = dict(cfg=sorted(ID_K[k][1] for k in cfg),
                            temps=sorted(ID_F[f] for f in temps),
                            events=case["events"])
+                snap = dict(cfg=dict(cfg), temps=dict(temps))
+                if tag in (3, 4):
+                    name = ID_F[a]
+                    ctx = dict(ctx, snap=snap,
+                               prev=list(okreads.get(name, [])),
+                               cached=sorted(root._ancillaries))
                 if tag == 3:
                     name = ID_F[a]
                     _fr, fresh = im.build(cfg, temps)
-                    if im.fmt == "child":
+                    ctx["cached_unavailable"] = [
+                        n for n in ctx["cached"] if n not in fresh]
+                    if im.fmt in ("child", "child2") \
+                            and not refreshed_by_dclab:
                         view.rejuvenate()
                     listed = name in view
                     c1, v1 = try_read(view, name)
@@ -666,6 +748,8 @@ def run_impl(case, scratch):
                     else:
                         code = c1
                     flat += [code, c0]
+                    if c1 == 0:
+                        okreads.setdefault(name, []).append(snap)
                     if c1 == 0 and name not in case["events"] \
                             and name not in ctx["temps"]:
                         computed += 1
@@ -705,6 +789,8 @@ def run_impl(case, scratch):
                 elif tag == 4:
                     name = ID_F[a]
                     _fr, fresh = im.build(cfg, temps)
+                    ctx["cached_unavailable"] = [
+                        n for n in ctx["cached"] if n not in fresh]
                     listed = name in view
                     listed0 = name in fresh
                     flat += [int(listed), int(listed0)]
@@ -743,71 +829,170 @@ def run_impl(case, scratch):
 CT_KEYS = ["crosstalk fl%d%d" % (i, j) for i in (1, 2, 3) for j in (1, 2, 3)
            if i != j]
 
+# Pinned copy of what the recipes of the UNCHANGED tree declare (feature
+# name, priority, req_features, req_config keys of section [calculation]
+# unless prefixed), in registration order. The staleness findings exist only
+# where THIS table leaves a read ingredient out of the cache key; a stale
+# value that this table would have re-computed is a new violation.
+_EM = ["imaging:pixel size", "setup:flow rate", "setup:channel width"]
+BASELINE = [
+    ("emodulus", 5, ["area_um", "deform"],
+     ["emodulus viscosity model", "emodulus lut", "emodulus medium",
+      "emodulus temperature"] + _EM),
+    ("emodulus", 1, ["area_um", "deform", "temp"],
+     ["emodulus viscosity model", "emodulus lut", "emodulus medium"] + _EM),
+    ("emodulus", 4, ["area_um", "deform"],
+     ["emodulus lut", "emodulus medium", "emodulus temperature"] + _EM),
+    ("emodulus", 0, ["area_um", "deform", "temp"],
+     ["emodulus lut", "emodulus medium"] + _EM),
+    ("emodulus", 2, ["area_um", "deform"],
+     ["emodulus lut", "emodulus viscosity"] + _EM),
+    ("fl1_max_ctc", 1, ["fl1_max", "fl2_max", "fl3_max"], CT_KEYS),
+    ("fl2_max_ctc", 1, ["fl1_max", "fl2_max", "fl3_max"], CT_KEYS),
+    ("fl3_max_ctc", 1, ["fl1_max", "fl2_max", "fl3_max"], CT_KEYS),
+    ("fl1_max_ctc", 0, ["fl1_max", "fl2_max"],
+     ["crosstalk fl21", "crosstalk fl12"]),
+    ("fl2_max_ctc", 0, ["fl1_max", "fl2_max"],
+     ["crosstalk fl21", "crosstalk fl12"]),
+    ("fl1_max_ctc", 0, ["fl1_max", "fl3_max"],
+     ["crosstalk fl31", "crosstalk fl13"]),
+    ("fl3_max_ctc", 0, ["fl1_max", "fl3_max"],
+     ["crosstalk fl31", "crosstalk fl13"]),
+    ("fl2_max_ctc", 0, ["fl2_max", "fl3_max"],
+     ["crosstalk fl32", "crosstalk fl23"]),
+    ("fl3_max_ctc", 0, ["fl2_max", "fl3_max"],
+     ["crosstalk fl32", "crosstalk fl23"]),
+]
 
-def viscosity_involved(case, f):
-    """'emodulus viscosity' is set now, or was set/deleted earlier in this
-    history: the value cached while it was set (computed from it although
-    the selected recipe does not hash it) survives its change or removal"""
-    if "emodulus viscosity" in f["ctx"]["cfg"]:
-        return True
-    kv = K_ID[("calculation", "emodulus viscosity")]
-    if any(k == kv for k, _v in case["cfg0"]):
-        return True
-    return any(o[0] in (0, 1) and o[1] == kv for o in case["ops"][:f["op"]])
+
+def _bkey(name):
+    if ":" in name:
+        sec, key = name.split(":")
+        return K_ID[(sec, key)]
+    return K_ID[("calculation", name)]
 
 
-def stale_viscosity_on_repo(case, f):
-    """The finding as it exists with the documented priorities C > B > A:
-    - the configuration selects case C (lut, medium, temperature present;
-      its cache key lacks the viscosity) and 'emodulus viscosity' was set or
-      removed at some point, or
-    - it selects case B (lut, viscosity; its cache key lacks the medium)
-      and 'emodulus medium' was changed earlier in this history.
-    A configuration that selects case A (no viscosity, no temperature) is
-    never stale; with other priorities a stale value is a new violation."""
-    cfg = f["ctx"]["cfg"]
-    if "emodulus lut" not in cfg:
-        return False
-    if "emodulus medium" in cfg and "emodulus temperature" in cfg:
-        return viscosity_involved(case, f)
-    if "emodulus viscosity" in cfg:
-        km = K_ID[("calculation", "emodulus medium")]
-        return any(o[0] in (0, 1) and o[1] == km
-                   for o in case["ops"][:f["op"]])
-    return False
+def feat_identity(name, events, snap):
+    """what identifies the data of a feature in a snapshot (innate data
+    never change; temporary data by version; the two computed inputs of the
+    emodulus by their own ingredients)"""
+    if name in events:
+        return ("innate",)
+    if F_ID.get(name) in snap["temps"]:
+        return ("temp", snap["temps"][F_ID[name]])
+    if name == "area_um":
+        src = feat_identity("area_cvx", events, snap)
+        px = snap["cfg"].get(K_ID[("imaging", "pixel size")])
+        if src is not None and px is not None:
+            return ("computed", src, px)
+    if name == "deform":
+        src = feat_identity("circ", events, snap)
+        if src is not None:
+            return ("computed", src)
+    return None
+
+
+def baseline_select(name, events, snap):
+    """index of the BASELINE row the unchanged tree selects, or None"""
+    own = []
+    for i, (n, prio, feats, keys) in enumerate(BASELINE):
+        if n != name:
+            continue
+        if any(_bkey(k) not in snap["cfg"] for k in keys):
+            continue
+        if any(feat_identity(f, events, snap) is None for f in feats):
+            continue
+        if n == "emodulus" and snap["cfg"].get(
+                K_ID[("setup", "chip region")], 1) != 1:
+            continue
+        own.append((prio, i))
+    if not own:
+        return None
+    top = max(p for p, _i in own)
+    return [i for p, i in own if p == top][-1]
+
+
+def baseline_key(name, events, snap):
+    """(row, declared ingredients): the cache key of the unchanged tree"""
+    i = baseline_select(name, events, snap)
+    if i is None:
+        return None
+    _n, _p, feats, keys = BASELINE[i]
+    return (i, tuple(feat_identity(f, events, snap) for f in feats),
+            tuple(snap["cfg"][_bkey(k)] for k in keys))
+
+
+def stale_on_unchanged_tree(case, f):
+    """Replays the cache of the unchanged tree over the successful reads of
+    this feature: the value held now was computed at the last read whose
+    baseline cache key differed from its predecessor's. The stale read is
+    the known finding only if the baseline key of the current state equals
+    the key under which that value was stored (so the unchanged tree returns
+    it as well) although the state differs."""
+    ctx = f["ctx"]
+    name = f["feature"]
+    events = ctx["events"]
+    held = None          # (key, snapshot at compute time)
+    for p in ctx["prev"]:
+        k = baseline_key(name, events, p)
+        if k is None:
+            continue
+        if held is None or held[0] != k:
+            held = (k, p)
+    now = baseline_key(name, events, ctx["snap"])
+    return held is not None and now is not None and held[0] == now \
+        and held[1] != ctx["snap"]
+
+
+def req_closure(name, seen=None):
+    seen = set() if seen is None else seen
+    for r in SIDE["rows"]:
+        if r["name"] == name:
+            for g in r["req_feats"]:
+                if g not in seen:
+                    seen.add(g)
+                    req_closure(g, seen)
+    return seen
+
+
+def ctx_text(ctx):
+    return json.dumps({k: ctx[k] for k in ("cfg", "temps", "events")})
 
 
 def classify(case, f):
+    """Matchers of the listed findings: each accepts exactly the inputs for
+    which the unchanged tree misbehaves, judged from the pinned BASELINE
+    declarations and the history -- not from the feature name alone."""
     feat = f["feature"]
     ctx = f["ctx"]
     have = set(ctx["events"]) | set(ctx["temps"])
     what = f["what"]
     if what == "in-vs-fresh" or (what == "raises" and f.get("listed")
                                  and not f.get("listed0")):
-        # long-lived says available, fresh says not: a value was cached
+        # long-lived says available, fresh says not: legitimate only when
+        # the feature itself, or one it requires, sits in the cache and is
+        # no longer available
         if f["listed"] and not f["listed0"]:
-            return "C06-cached-stays-listed"
+            gone = set(ctx.get("cached_unavailable", []))
+            if feat in gone or gone & req_closure(feat):
+                return "C06-cached-stays-listed"
         return None
     if feat in ("fl1_max_ctc", "fl2_max_ctc", "fl3_max_ctc"):
-        full = all(c in have for c in ("fl1_max", "fl2_max", "fl3_max")) \
-            and all(k in ctx["cfg"] for k in CT_KEYS)
-        if what in ("stale", "fresh-in-vs-read") and not full:
+        three = all(c in have for c in ("fl1_max", "fl2_max", "fl3_max"))
+        full = three and all(k in ctx["cfg"] for k in CT_KEYS)
+        if what == "stale" and not full and stale_on_unchanged_tree(case, f):
+            return "C06-ctc-undeclared-crosstalk"
+        if what == "fresh-in-vs-read" and three and not full \
+                and f.get("listed0") and f.get("code0") == 4:
             return "C06-ctc-undeclared-crosstalk"
         return None
-    if feat == "ml_class" and what == "stale":
-        if any(t.startswith("ml_score_") for t in ctx["temps"]):
-            return "C06-mlclass-score-data"
-        return None
-    if feat in ("bright_bc_avg", "bright_bc_sd", "bright_perc_10",
-                "bright_perc_90") and what == "stale":
-        if "bg_off" in ctx["temps"]:
-            return "C06-bright-bgoff"
-        return None
     if feat == "emodulus":
+        has_temp = "temp" in have
         if what == "fresh-in-vs-read" and f.get("listed0") \
-                and f.get("code0") == 3:
+                and f.get("code0") == 3 \
+                and documented_scenario(ctx["snap"]["cfg"], has_temp) is None:
             return "C06-emodulus-available-unreadable"
-        if what == "stale" and stale_viscosity_on_repo(case, f):
+        if what == "stale" and stale_on_unchanged_tree(case, f):
             return "C06-emodulus-stale-viscosity"
         return None
     return None
@@ -925,18 +1110,21 @@ def run(run):
         load_side()
     from .translators import anc_trace
     anc_trace.load_plugin(common.REPO)
-    ncases = 1500 if run.thorough else 220
+    ncases = 1500 if run.thorough else 200
     cases = [corpus_case(c) for c in load_corpus()]
     run.count("corpus", len(cases))
     while len(cases) < ncases:
         cases.append(gen_case(run.rng, run.thorough))
     sweep = emod_sweep_cases()
+    csweep = ctc_sweep_cases()
     if not run.thorough:
-        # a third of the exhaustive emodulus sweep per quick run (all of it
-        # in the thorough tier and in search())
-        sweep = sweep[run.seed % 3::3]
+        # a part of the exhaustive sweeps per quick run (all of them in the
+        # thorough tier and in search())
+        sweep = sweep[run.seed % 6::6]
+        csweep = csweep[run.seed % 2::2]
     run.count("emod-sweep", len(sweep))
-    cases += sweep
+    run.count("ctc-sweep", len(csweep))
+    cases += sweep + csweep
     results = run_cases(run, cases)
     impl = []
     for c, res in zip(cases, results):
@@ -956,13 +1144,16 @@ def run(run):
             run.count("oracle:" + (fid or "UNMATCHED:" + f["what"]))
             fcase = dict(c, failing_op=f["op"])
             run.oracle_failure(fcase, f["desc"] + " [%s, op %d, state %s]" % (
-                f["what"], f["op"], json.dumps(f["ctx"])), fid)
+                f["what"], f["op"], ctx_text(f["ctx"])), fid)
     model = common.coq_map(run.scratch, "c06", HEADER, "run_flat registry",
                            [render(c) for c in cases], shard=40)
     stale_pred = 0
     coincid = []
     for c, m, i in zip(cases, model, impl):
         run.corr_checked += 1
+        rp = set(read_positions(c))
+        m = [norm_code(x) if (k in rp or k - 1 in rp) else x
+             for k, x in enumerate(m)]
         stale_pred += sum(1 for x in read_positions(c) if x < len(m)
                           and m[x] == 1)
         if m != i:
@@ -979,11 +1170,12 @@ def run(run):
             run.mismatch(c, m, i)
     run.count("model-stale-predictions", stale_pred)
     run.count("value-coincidences", len(coincid))
-    if len(coincid) > max(3, 0.15 * max(1, stale_pred)):
+    if len(coincid) > max(3, 0.30 * max(1, stale_pred)):
         run.mismatch(coincid[0], "stale predicted", "fresh value observed",
                      what="too many stale predictions not observed (%d of %d)"
                      % (len(coincid), stale_pred))
     emodulus_table(run)
+    uses_sensitivity(run)
 
 
 # --------------------------------------------------------------------------
@@ -1224,9 +1416,128 @@ def emodulus_table(run):
                            "emod_row registry", rendered, shard=200)
     for r, m, i in zip(rows, model, impl):
         run.corr_checked += 1
+        m = m[:2] + [13 if m[2] == 15 else m[2]]
         if m != i:
             run.mismatch(dict(kind="emodulus-table", row=list(r[:6]),
                               variant=r[6]), m, i, what="emodulus table")
+
+
+# --------------------------------------------------------------------------
+# tie of the traced `uses` column to the real entry point ds[feat]
+# --------------------------------------------------------------------------
+SENS_FEATS = ["bg_off", "temp", "fl1_max", "fl2_max", "fl3_max",
+              "ml_score_abc", "ml_score_xyz"]
+
+
+def _closure_uses(row, depth=0):
+    """ingredients the traced table attributes to a row, including those of
+    the recipes of its required (computed) features"""
+    out = set()
+    for x in row["uses"] + row["extra"]:
+        out.add(("cfg", x[1], x[2]) if x[0] == "cfg" else ("feat", x[1]))
+    for k in row["req_keys"]:
+        out.add(("cfg", k[0], k[1]))
+    for g in row["req_feats"]:
+        out.add(("feat", g))
+        if depth < 4:
+            for r2 in SIDE["rows"]:
+                if r2["name"] == g:
+                    out |= _closure_uses(r2, depth + 1)
+    return out
+
+
+def _sens_row(idx):
+    """Black-box sensitivity of one recipe on the real code: in an
+    environment where exactly this instance is selected, change one
+    configuration key / optional feature at a time on a FRESH dataset; if
+    ds[feat] changes while the same instance stays selected, the ingredient
+    must be in the traced `uses` (else the tracer missed a read and the
+    completeness theorem talks about the wrong table). Returns a list of
+    problems."""
+    import dclab
+    from dclab.rtdc_dataset.feat_anc_core import AncillaryFeature
+    from .translators import anc_trace
+    warnings.simplefilter("ignore")
+    row = SIDE["rows"][idx]
+    regs = list(AncillaryFeature.features)
+    if idx >= len(regs) or regs[idx].feature_name != row["name"]:
+        return ["row %d: registry order differs from the traced table" % idx]
+    inst = regs[idx]
+    anc = set(r.feature_name for r in regs)
+    try:
+        base_feats = anc_trace.base_closure(row["req_feats"], anc, regs)
+    except Exception as e:
+        return ["row %d: %r" % (idx, e)]
+    cfg0 = {}
+    for sec, key in row["req_keys"]:
+        cfg0[K_ID[(sec, key)]] = 3 if key == "emodulus lut" else 1
+    if row["name"] == "ml_class":
+        temps0 = {F_ID["ml_score_abc"]: 1, F_ID["ml_score_xyz"]: 1}
+    else:
+        temps0 = {}
+    feat = row["name"]
+
+    def build(cfg, temps):
+        data = {f: innate_data(f) for f in base_feats} or \
+            {"deform": innate_data("deform")}
+        ds = dclab.new_dataset(data)
+        for k, v in cfg.items():
+            sec, key = ID_K[k]
+            ds.config[sec][key] = cfg_value(k, v)
+        for f, v in temps.items():
+            dclab.set_temporary_feature(ds, ID_F[f], temp_data(ID_F[f], v))
+        sel = AncillaryFeature.available_features(ds).get(feat)
+        return ds, sel
+
+    ds, sel = build(cfg0, temps0)
+    if sel is not inst:
+        return []        # shadowed by another instance in its minimal env
+    code0, val0 = try_read(ds, feat)
+    known = _closure_uses(row)
+    problems = []
+    changes = []
+    for (sec, key), k in K_ID.items():
+        c2 = dict(cfg0)
+        c2[k] = 2 if k in cfg0 else 1
+        changes.append((("cfg", sec, key), c2, temps0))
+    for f in SENS_FEATS:
+        if f in base_feats or f not in F_ID:
+            continue
+        t2 = dict(temps0)
+        t2[F_ID[f]] = temps0.get(F_ID[f], 0) + 3
+        changes.append((("feat", f), cfg0, t2))
+    for ing, cfg, temps in changes:
+        try:
+            ds2, sel2 = build(cfg, temps)
+        except Exception as e:
+            problems.append("row %d (%s): cannot build with %s: %r" % (
+                idx, feat, ing, e))
+            continue
+        if sel2 is not inst:
+            continue
+        code, val = try_read(ds2, feat)
+        differs = code != code0 or (code == 0 and not same_value(val, val0))
+        if differs and ing not in known:
+            problems.append(
+                "row %d (%s): ds[%r] depends on %s, which the traced table "
+                "does not list among the ingredients the method reads" % (
+                    idx, feat, feat, ing))
+    return problems
+
+
+def uses_sensitivity(run):
+    import multiprocessing as mp
+    ctx = mp.get_context("fork")
+    n = len(SIDE["rows"])
+    with ctx.Pool(min(common.NCPU, 12), initializer=_pool_init,
+                  initargs=(SIDE, common.REPO)) as pool:
+        res = pool.map(_sens_row, range(n), chunksize=1)
+    for idx, problems in enumerate(res):
+        run.corr_checked += 1
+        run.count("uses-sensitivity-rows")
+        for pr in problems:
+            run.mismatch(dict(kind="uses-sensitivity", row=idx), "traced uses",
+                         pr, what="tracer vs ds[feat]")
 
 
 # --------------------------------------------------------------------------
@@ -1260,7 +1571,7 @@ def shrink(run, failure):
                 break
     small = dict(base, ops=ops)
     target = fails(small)
-    return dict(case=small, desc=target["desc"] + " state %s" % json.dumps(
+    return dict(case=small, desc=target["desc"] + " state %s" % ctx_text(
         target["ctx"]), finding=None)
 
 
@@ -1268,7 +1579,8 @@ def search(run, broken):
     """proof / correspondence broken and the oracle quiet: larger sweep of
     the oracle on the implementation"""
     n = 4000 if run.thorough else 1000
-    cases = emod_sweep_cases() + [gen_case(run.rng, True) for _ in range(n)]
+    cases = emod_sweep_cases() + ctc_sweep_cases() + [
+        gen_case(run.rng, True) for _ in range(n)]
     results = run_cases(run, cases)
     for c, res in zip(cases, results):
         if res[0] == "crash":
